@@ -176,6 +176,14 @@ class Interp:
                 return None
             self.set_results(op, [_BIN[name](a, b, w)], env)
             return None
+        if name == "mului_extended":
+            a, b = vals
+            if not (isinstance(a, int) and isinstance(b, int)):
+                self.set_results(op, [self.m.symbolic(op, vals + ["low"]), self.m.symbolic(op, vals + ["high"])], env)
+                return None
+            full = unsigned(a, w) * unsigned(b, w)
+            self.set_results(op, [full & ((1 << w) - 1), full >> w], env)
+            return None
         if name == "cmpi":
             a, b = vals
             wi = type_width(op.operands[0].type)
